@@ -11,6 +11,7 @@ mod encspace;
 mod bfs;
 mod corpus;
 mod readers;
+mod devices;
 
 use crate::core::{Acc, Ctx};
 use serde_json::{json, Value};
